@@ -18,6 +18,8 @@ theorem updateInflight_tr (s : S) (fuel idx : Nat) : TrN (view s) (view (s.updat
     · exact Path.refl _
     · rename_i m hm
       split
+      · exact Path.refl _
+      split
       · split
         · simp only
           have h1 := sendPublish_tr { s with inflight := s.inflight + 1, out := s.out.set idx { m with state := if m.qos = 1 then .waitPuback else if m.qos = 2 then .waitPubrec else m.state } } m.mid m.topic m.payload m.qos m.retain m.dup none true (some m.info)
@@ -176,6 +178,8 @@ theorem connackResend_tr (s : S) (fuel idx : Nat) (rc : RC) : TrN (view s) (view
     split
     · exact Path.refl _
     · rename_i m hm
+      split
+      · exact Path.refl _
       split
       · generalize hu : loopWrite _ = p
         have h1 := loopWrite_tr' hu
